@@ -562,10 +562,16 @@ def _want_shas(job, u):
     return [u.sha[tuple(w)].encode() for w in job["wants"]]
 
 
+def _want_ref(job, k, w):
+    """a fetched commit becomes a branch (so that it is a head the next negotiation offers), anything
+    else a ref outside refs/heads"""
+    return f"refs/{'heads' if w[0] == 'c' else 'verif'}/w{job.get('step', 0)}_{k}"
+
+
 def _set_want_refs(rpath, job, u):
     """what the caller of client.fetch() does with the result: point refs at what was fetched"""
     for k, w in enumerate(job["wants"]):
-        L.write_ref(rpath, f"refs/verif/w{job.get('step', 0)}_{k}", u.sha[tuple(w)])
+        L.write_ref(rpath, _want_ref(job, k, w), u.sha[tuple(w)])
 
 
 def _finish_capture(rec, u, data):
@@ -772,7 +778,7 @@ def fetch_githttp(job, u, spath, rpath, rec):
     caps = job.get("caps", {})
     rec["rcv"] = "g"
     names = {tuple(v): k for k, v in _sender_refs(job).items()}
-    specs = [f"+{names[tuple(w)]}:refs/verif/w{job.get('step', 0)}_{k}" for k, w in enumerate(job["wants"])]
+    specs = [f"+{names[tuple(w)]}:{_want_ref(job, k, w)}" for k, w in enumerate(job["wants"])]
     packfile = rpath + ".packtrace"
     dopt = []
     if job.get("depth"):
@@ -846,7 +852,7 @@ def fetch_gitclient(job, u, spath, rpath, rec):
     specs = []
     names = {tuple(v): k for k, v in _sender_refs(job).items()}
     for k, w in enumerate(job["wants"]):
-        specs.append(f"+{names[tuple(w)]}:refs/verif/w{job.get('step', 0)}_{k}")
+        specs.append(f"+{names[tuple(w)]}:{_want_ref(job, k, w)}")
     packfile = rpath + ".packtrace"
     cfg = ["-c", f"protocol.version={2 if caps.get('v2') else 0}", "-c", "fetch.unpackLimit=%d" % (1 if caps.get("keep_pack") else 100),
            "-c", "gc.auto=0", "-c", "fetch.writeCommitGraph=false"]
